@@ -292,4 +292,209 @@ theorem rotateLeft_spec {P : Addr → Prop} {st : St} {a : Addr} {c : Cell} {k :
     · exact hQfresh x hx
     · exact Or.inr (Or.inl (by rw [hx]; exact hlen))
 
+theorem ExtOn.on {st st' : St} (h : ExtOn (fun _ => True) st st') (K : Addr → Prop) : ExtOn K st st' :=
+  h.mono (fun _ _ => trivial)
+
+theorem Node.balance_eq (version : Nat) (k : Bytes) (h s : Nat) (l r : Node) (ver : Nat) :
+    Node.balance version (.inner k h s l r ver) =
+      if (l.height : Int) - (r.height : Int) > 1 then
+        if l.calcBalance ≥ 0 then Node.rotateRight version (.inner k h s l r ver)
+        else Node.rotateRight version (.inner k h s (Node.rotateLeft version l) r ver)
+      else if (l.height : Int) - (r.height : Int) < -1 then
+        if r.calcBalance ≤ 0 then Node.rotateLeft version (.inner k h s l r ver)
+        else Node.rotateLeft version (.inner k h s l (Node.rotateRight version r) ver)
+      else .inner k h s l r ver := rfl
+
+theorem Node.height_pos_inner {t : Node} (h : t.height ≠ 0) : ∃ k hh s l r ver, t = .inner k hh s l r ver := by
+  cases t with
+  | leaf => exact absurd rfl h
+  | inner k hh s l r ver => exact ⟨k, hh, s, l, r, ver, rfl⟩
+
+/-- `balance` (as is) on a fresh unpersisted object outside its children's footprint. -/
+theorem balance_spec {P : Addr → Prop} {st : St} {a : Addr} {c : Cell} {k : Bytes} {h s ver : Nat} {l r : Node}
+    (version : Nat) (orphans : List Addr)
+    (hc : CacheOK st) (ha : st.heap[a]? = some c) (hnp : c.persisted = false) (hPa : ¬ P a)
+    (hk : c.key = k) (hh : c.height = h) (h0 : h ≠ 0) (hs : c.size = s) (hv : c.version = ver) (hhash : c.hash = none)
+    (hl : Slot H P st l c.leftPtr c.leftHash) (hr : Slot H P st r c.rightPtr c.rightHash) :
+    ∃ st' n orph' cn, balance Cfg.asIs version st a orphans = some (st', n, orph') ∧ ExtOn (· ≠ a) st st' ∧
+      CacheOK st' ∧
+      Rep H (fun x => Fresh st P x ∨ x = a) st' (Node.balance version (.inner k h s l r ver)) n ∧
+      st'.heap[n]? = some cn ∧ cn.persisted = false ∧ cn.hash = none ∧ (n = a ∨ st.heap.length ≤ n) ∧
+      (∃ extra, orph' = orphans ++ extra) := by
+  have hPne : ∀ x, P x → x ≠ a := fun x hx e => hPa (e ▸ hx)
+  -- calcBalance(a)
+  obtain ⟨st1, hb1, he1, hc1⟩ := calcBalance_spec H hc ha hl hr
+  have ha1 : st1.heap[a]? = some c := he1.cells a c trivial ha
+  have hl1 : Slot H P st1 l c.leftPtr c.leftHash := Slot.ext H hl he1 (fun _ _ => trivial)
+  have hr1 : Slot H P st1 r c.rightPtr c.rightHash := Slot.ext H hr he1 (fun _ _ => trivial)
+  have hstart : ∀ (rest : St → Int → Option (St × Addr × List Addr)),
+      (balance Cfg.asIs version st a orphans = rest st1 ((l.height : Int) - (r.height : Int))) →
+      True := fun _ _ => trivial
+  by_cases hb : (l.height : Int) - (r.height : Int) > 1
+  · -- left heavy: l is an inner node
+    have hlh : l.height ≠ 0 := by intro e; rw [e] at hb; omega
+    obtain ⟨lk, lh, ls, ll, lr, lver, rfl⟩ := Node.height_pos_inner hlh
+    obtain ⟨st2, lp, hg2, he2, hc2, hrl2⟩ := getLeft_spec H hc1 ha1 hl1
+    obtain ⟨_, cl, hcl, _, _, _, _, _, hsll, hslr, _, _⟩ := hrl2
+    obtain ⟨st3, hb3, he3, hc3⟩ := calcBalance_spec H hc2 hcl hsll hslr
+    have he03 : Ext st st3 := (he1.trans he2).trans he3
+    have ha3 : st3.heap[a]? = some c := he03.cells a c trivial ha
+    have hl3 : Slot H P st3 (.inner lk lh ls ll lr lver) c.leftPtr c.leftHash := Slot.ext H hl he03 (fun _ _ => trivial)
+    have hr3 : Slot H P st3 r c.rightPtr c.rightHash := Slot.ext H hr he03 (fun _ _ => trivial)
+    by_cases hlb : (ll.height : Int) - (lr.height : Int) ≥ 0
+    · -- left-left: single right rotation
+      obtain ⟨st4, n, o, cn, hrot, he4, hc4, hrep, hlen, hn4, hnp4, hh4⟩ :=
+        rotateRight_spec H (ver := ver) version hc3 ha3 hk hh h0 hs hl3 hr3
+      refine ⟨st4, n, orphans ++ [o], cn, ?_, (he03.trans he4).on _, hc4, ?_, hn4, hnp4, hh4,
+        Or.inr (Nat.le_trans he03.len hlen), ⟨_, rfl⟩⟩
+      · simp only [balance, ha, hnp, hb1, hg2, hb3, hrot, Option.bind_eq_bind, Option.bind_some, Bool.false_eq_true,
+          if_false, if_pos hb, if_pos hlb]
+      · have : Node.balance version (.inner k h s (.inner lk lh ls ll lr lver) r ver)
+            = Node.rotateRight version (.inner k h s (.inner lk lh ls ll lr lver) r ver) := by
+          have hlb' : (Node.inner lk lh ls ll lr lver).calcBalance ≥ 0 := hlb
+          rw [Node.balance_eq, if_pos hb, if_pos hlb']
+        rw [this]
+        exact Rep.mono H hrep (fun x _ hx _ => Or.inl (Fresh.of_ext he03 (fun _ hy => Or.inl hy) hx))
+    · -- left-right: rotate the left child left, then rotate right
+      have hlrh : lr.height ≠ 0 := by intro e; rw [e] at hlb; omega
+      obtain ⟨rk, rh, rs, rl, rr, rver, rfl⟩ := Node.height_pos_inner hlrh
+      obtain ⟨st4, left, hg4, he4, hc4, hrl4⟩ := getLeft_spec H hc3 ha3 hl3
+      have ha4 : st4.heap[a]? = some c := he4.cells a c trivial ha3
+      -- a.leftHash := nil
+      let c5 : Cell := { c with leftHash := none }
+      let st5 := st4.write a c5
+      have he5 : ExtOn (· ≠ a) st4 st5 := write_ext ha4 c5 rfl
+      have ha5 : st5.heap[a]? = some c5 := write_same ha4 c5
+      have hc5 : CacheOK st5 := by
+        refine CacheOK.ext hc4 he5 (fun x cx hx hp e => ?_) (fun _ _ h => h)
+        subst e; rw [ha4] at hx; cases hx; rw [hnp] at hp; cases hp
+      have hnotF3 : ¬ Fresh st3 P a := Fresh.not ha3 hnp hPa
+      have hrl5 : Rep H (Fresh st3 P) st5 (.inner lk lh ls ll (.inner rk rh rs rl rr rver) lver) left :=
+        Rep.ext H hrl4 he5 (fun x hx e => hnotF3 (e ▸ hx))
+      obtain ⟨_, cleft, hcleft, hlk, hlhh, hlh0, hlss, _, hsll5, hslr5, _, _⟩ := hrl5
+      obtain ⟨st6, nl, lo, cnl, hrot6, he6, hc6, hrep6, hlen6, hnl6, hnp6, hh6⟩ :=
+        rotateLeft_spec H (ver := lver) version hc5 hcleft hlk hlhh hlh0 hlss hsll5 hslr5
+      have ha6 : st6.heap[a]? = some c5 := he6.cells a c5 trivial ha5
+      -- a.leftNode := nl
+      let c7 : Cell := { c5 with leftPtr := some nl }
+      let st7 := st6.write a c7
+      have he7 : ExtOn (· ≠ a) st6 st7 := write_ext ha6 c7 rfl
+      have ha7 : st7.heap[a]? = some c7 := write_same ha6 c7
+      have hc7 : CacheOK st7 := by
+        refine CacheOK.ext hc6 he7 (fun x cx hx hp e => ?_) (fun _ _ h => h)
+        subst e; rw [ha6] at hx; cases hx; rw [hnp] at hp; cases hp
+      let P7 : Addr → Prop := Fresh st5 (Fresh st3 P)
+      have hnotP7 : ¬ P7 a := Fresh.not ha5 hnp hnotF3
+      have hrep7 : Rep H P7 st7 (Node.rotateLeft version (.inner lk lh ls ll (.inner rk rh rs rl rr rver) lver)) nl :=
+        Rep.ext H hrep6 he7 (fun x hx e => hnotP7 (e ▸ hx))
+      have he07 : ExtOn (· ≠ a) st st7 :=
+        ((((he03.trans he4).on _).trans he5).trans (he6.on _)).trans he7
+      have hr7 : Slot H P7 st7 r c7.rightPtr c7.rightHash :=
+        Slot.mono H (Slot.ext H hr he07 hPne) (fun _ _ hx _ => Or.inl (Or.inl hx))
+      have hl7 : Slot H P7 st7 (Node.rotateLeft version (.inner lk lh ls ll (.inner rk rh rs rl rr rver) lver))
+          c7.leftPtr c7.leftHash := ⟨hrep7, Or.inl rfl⟩
+      obtain ⟨st8, n, o, cn, hrot8, he8, hc8, hrep8, hlen8, hn8, hnp8, hh8⟩ :=
+        rotateRight_spec H (ver := ver) version hc7 ha7 hk hh h0 hs hl7 hr7
+      refine ⟨st8, n, orphans ++ [left, lo, o], cn, ?_, he07.trans (he8.on _), hc8, ?_, hn8, hnp8, hh8,
+        Or.inr (Nat.le_trans he07.len hlen8), ⟨_, rfl⟩⟩
+      · have e5 : st4.modify a (fun c => { c with leftHash := none }) = some st5 := modify_eq ha4 _
+        have e7 : st6.modify a (fun c => { c with leftPtr := some nl }) = some st7 := modify_eq ha6 _
+        simp only [balance, ha, hnp, hb1, hg2, hb3, hg4, e5, hrot6, e7, hrot8, Option.bind_eq_bind, Option.bind_some,
+          Bool.false_eq_true, if_false, if_pos hb, if_neg hlb]
+      · have : Node.balance version (.inner k h s (.inner lk lh ls ll (.inner rk rh rs rl rr rver) lver) r ver)
+            = Node.rotateRight version (.inner k h s
+                (Node.rotateLeft version (.inner lk lh ls ll (.inner rk rh rs rl rr rver) lver)) r ver) := by
+          have hlb' : ¬ (Node.inner lk lh ls ll (.inner rk rh rs rl rr rver) lver).calcBalance ≥ 0 := hlb
+          rw [Node.balance_eq, if_pos hb, if_neg hlb']
+        rw [this]
+        refine Rep.mono H hrep8 (fun x _ hx _ => Or.inl ?_)
+        exact Fresh.of_ext he07 (fun y hy => Fresh.of_ext ((he03.trans he4).on (· ≠ a) |>.trans he5)
+          (fun z hz => Fresh.of_ext he03 (fun _ hw => Or.inl hw) hz) hy) hx
+  · by_cases hb2 : (l.height : Int) - (r.height : Int) < -1
+    · -- right heavy: r is an inner node
+      have hrh : r.height ≠ 0 := by intro e; rw [e] at hb2; omega
+      obtain ⟨rk, rh, rs, rl, rr, rver, rfl⟩ := Node.height_pos_inner hrh
+      obtain ⟨st2, rp, hg2, he2, hc2, hrr2⟩ := getRight_spec H hc1 ha1 hr1
+      obtain ⟨_, cr, hcr, _, _, _, _, _, hsrl, hsrr, _, _⟩ := hrr2
+      obtain ⟨st3, hb3, he3, hc3⟩ := calcBalance_spec H hc2 hcr hsrl hsrr
+      have he03 : Ext st st3 := (he1.trans he2).trans he3
+      have ha3 : st3.heap[a]? = some c := he03.cells a c trivial ha
+      have hl3 : Slot H P st3 l c.leftPtr c.leftHash := Slot.ext H hl he03 (fun _ _ => trivial)
+      have hr3 : Slot H P st3 (.inner rk rh rs rl rr rver) c.rightPtr c.rightHash := Slot.ext H hr he03 (fun _ _ => trivial)
+      by_cases hrb : (rl.height : Int) - (rr.height : Int) ≤ 0
+      · -- right-right: single left rotation
+        obtain ⟨st4, n, o, cn, hrot, he4, hc4, hrep, hlen, hn4, hnp4, hh4⟩ :=
+          rotateLeft_spec H (ver := ver) version hc3 ha3 hk hh h0 hs hl3 hr3
+        refine ⟨st4, n, orphans ++ [o], cn, ?_, (he03.trans he4).on _, hc4, ?_, hn4, hnp4, hh4,
+          Or.inr (Nat.le_trans he03.len hlen), ⟨_, rfl⟩⟩
+        · simp only [balance, ha, hnp, hb1, hg2, hb3, hrot, Option.bind_eq_bind, Option.bind_some, Bool.false_eq_true,
+            if_false, if_neg hb, if_pos hb2, if_pos hrb]
+        · have : Node.balance version (.inner k h s l (.inner rk rh rs rl rr rver) ver)
+              = Node.rotateLeft version (.inner k h s l (.inner rk rh rs rl rr rver) ver) := by
+            have hrb' : (Node.inner rk rh rs rl rr rver).calcBalance ≤ 0 := hrb
+            rw [Node.balance_eq, if_neg hb, if_pos hb2, if_pos hrb']
+          rw [this]
+          exact Rep.mono H hrep (fun x _ hx _ => Or.inl (Fresh.of_ext he03 (fun _ hy => Or.inl hy) hx))
+      · -- right-left: rotate the right child right, then rotate left
+        have hrlh : rl.height ≠ 0 := by intro e; rw [e] at hrb; omega
+        obtain ⟨lk, lh, ls, ll, lr, lver, rfl⟩ := Node.height_pos_inner hrlh
+        obtain ⟨st4, right, hg4, he4, hc4, hrr4⟩ := getRight_spec H hc3 ha3 hr3
+        have ha4 : st4.heap[a]? = some c := he4.cells a c trivial ha3
+        let c5 : Cell := { c with rightHash := none }
+        let st5 := st4.write a c5
+        have he5 : ExtOn (· ≠ a) st4 st5 := write_ext ha4 c5 rfl
+        have ha5 : st5.heap[a]? = some c5 := write_same ha4 c5
+        have hc5 : CacheOK st5 := by
+          refine CacheOK.ext hc4 he5 (fun x cx hx hp e => ?_) (fun _ _ h => h)
+          subst e; rw [ha4] at hx; cases hx; rw [hnp] at hp; cases hp
+        have hnotF3 : ¬ Fresh st3 P a := Fresh.not ha3 hnp hPa
+        have hrr5 : Rep H (Fresh st3 P) st5 (.inner rk rh rs (.inner lk lh ls ll lr lver) rr rver) right :=
+          Rep.ext H hrr4 he5 (fun x hx e => hnotF3 (e ▸ hx))
+        obtain ⟨_, cright, hcright, hrk, hrhh, hrh0, hrss, _, hsrl5, hsrr5, _, _⟩ := hrr5
+        obtain ⟨st6, nr, ro, cnr, hrot6, he6, hc6, hrep6, hlen6, hnr6, hnp6, hh6⟩ :=
+          rotateRight_spec H (ver := rver) version hc5 hcright hrk hrhh hrh0 hrss hsrl5 hsrr5
+        have ha6 : st6.heap[a]? = some c5 := he6.cells a c5 trivial ha5
+        let c7 : Cell := { c5 with rightPtr := some nr }
+        let st7 := st6.write a c7
+        have he7 : ExtOn (· ≠ a) st6 st7 := write_ext ha6 c7 rfl
+        have ha7 : st7.heap[a]? = some c7 := write_same ha6 c7
+        have hc7 : CacheOK st7 := by
+          refine CacheOK.ext hc6 he7 (fun x cx hx hp e => ?_) (fun _ _ h => h)
+          subst e; rw [ha6] at hx; cases hx; rw [hnp] at hp; cases hp
+        let P7 : Addr → Prop := Fresh st5 (Fresh st3 P)
+        have hnotP7 : ¬ P7 a := Fresh.not ha5 hnp hnotF3
+        have hrep7 : Rep H P7 st7 (Node.rotateRight version (.inner rk rh rs (.inner lk lh ls ll lr lver) rr rver)) nr :=
+          Rep.ext H hrep6 he7 (fun x hx e => hnotP7 (e ▸ hx))
+        have he07 : ExtOn (· ≠ a) st st7 :=
+          ((((he03.trans he4).on _).trans he5).trans (he6.on _)).trans he7
+        have hl7 : Slot H P7 st7 l c7.leftPtr c7.leftHash :=
+          Slot.mono H (Slot.ext H hl he07 hPne) (fun _ _ hx _ => Or.inl (Or.inl hx))
+        have hr7 : Slot H P7 st7 (Node.rotateRight version (.inner rk rh rs (.inner lk lh ls ll lr lver) rr rver))
+            c7.rightPtr c7.rightHash := ⟨hrep7, Or.inl rfl⟩
+        obtain ⟨st8, n, o, cn, hrot8, he8, hc8, hrep8, hlen8, hn8, hnp8, hh8⟩ :=
+          rotateLeft_spec H (ver := ver) version hc7 ha7 hk hh h0 hs hl7 hr7
+        refine ⟨st8, n, orphans ++ [right, o, ro], cn, ?_, he07.trans (he8.on _), hc8, ?_, hn8, hnp8, hh8,
+          Or.inr (Nat.le_trans he07.len hlen8), ⟨_, rfl⟩⟩
+        · have e5 : st4.modify a (fun c => { c with rightHash := none }) = some st5 := modify_eq ha4 _
+          have e7 : st6.modify a (fun c => { c with rightPtr := some nr }) = some st7 := modify_eq ha6 _
+          simp only [balance, ha, hnp, hb1, hg2, hb3, hg4, e5, hrot6, e7, hrot8, Option.bind_eq_bind, Option.bind_some,
+            Bool.false_eq_true, if_false, if_neg hb, if_pos hb2, if_neg hrb]
+        · have : Node.balance version (.inner k h s l (.inner rk rh rs (.inner lk lh ls ll lr lver) rr rver) ver)
+              = Node.rotateLeft version (.inner k h s l
+                  (Node.rotateRight version (.inner rk rh rs (.inner lk lh ls ll lr lver) rr rver)) ver) := by
+            have hrb' : ¬ (Node.inner rk rh rs (.inner lk lh ls ll lr lver) rr rver).calcBalance ≤ 0 := hrb
+            rw [Node.balance_eq, if_neg hb, if_pos hb2, if_neg hrb']
+          rw [this]
+          refine Rep.mono H hrep8 (fun x _ hx _ => Or.inl ?_)
+          exact Fresh.of_ext he07 (fun y hy => Fresh.of_ext ((he03.trans he4).on (· ≠ a) |>.trans he5)
+            (fun z hz => Fresh.of_ext he03 (fun _ hw => Or.inl hw) hz) hy) hx
+    · -- balanced: the node itself
+      refine ⟨st1, a, orphans, c, ?_, he1.on _, hc1, ?_, ha1, hnp, hhash, Or.inl rfl, ⟨[], by simp⟩⟩
+      · simp only [balance, ha, hnp, hb1, Option.bind_eq_bind, Option.bind_some, Bool.false_eq_true,
+          if_false, if_neg hb, if_neg hb2]
+      · rw [Node.balance_eq, if_neg hb, if_neg hb2]
+        refine Rep.mk_inner H (Or.inr rfl) ha1 hk hh h0 hs hv ?_ ?_ hhash hnp
+        · exact Slot.mono H hl1 (fun _ _ hx _ => Or.inl (Or.inl hx))
+        · exact Slot.mono H hr1 (fun _ _ hx _ => Or.inl (Or.inl hx))
+
 end Iavl.Heap
